@@ -55,6 +55,9 @@ pub enum Behaviour {
     /// Terminates normally with `False`: a Plutus V1 / V2 script succeeds whenever it does not
     /// error, a Plutus V3 script must return unit, so this one fails under V3 only.
     ReturnFalse,
+    /// Terminates normally with `True`: still not unit, so it fails under Plutus V3 as well (the
+    /// ledger does not accept a boolean there) and succeeds under V1 / V2.
+    ReturnTrue,
 }
 
 #[derive(Clone, Debug, Serialize, Deserialize, PartialEq)]
@@ -177,6 +180,7 @@ fn script_source(s: &ScriptUse) -> String {
         Behaviour::Ok => unit.to_string(),
         Behaviour::Fail => "(error)".to_string(),
         Behaviour::ReturnFalse => "(con bool False)".to_string(),
+        Behaviour::ReturnTrue => "(con bool True)".to_string(),
         Behaviour::Burn(k) => format!(
             "[ [ (lam s [ s s ]) (lam self (lam i (force [ [ [ (force (builtin ifThenElse)) [ [ (builtin lessThanEqualsInteger) i ] (con integer 0) ] ] (delay {unit}) ] (delay [ [ self self ] [ [ (builtin subtractInteger) i ] (con integer 1) ] ]) ]))) ] (con integer {k}) ]"
         ),
@@ -1208,7 +1212,7 @@ fn gen_scenario(rng: &mut Rng) -> Scenario {
         };
         let behaviour = match rng.below(10) {
             0 => Behaviour::Fail,
-            1 if rng.chance(1, 2) => Behaviour::ReturnFalse,
+            1 if rng.chance(1, 2) => if rng.chance(1, 2) { Behaviour::ReturnFalse } else { Behaviour::ReturnTrue },
             1..=3 => Behaviour::Ok,
             4..=7 => Behaviour::Burn(rng.range(1, 400) as u32),
             8 if version >= 2 => Behaviour::HashCtx,
